@@ -75,6 +75,9 @@ auto dr_numerical(auto && f, auto && x)
 
     Eigen::Matrix<Scalar, Nx, std::min(Nx, Ny) == -1 ? -1 : Nx * Ny> H(nx, nx * ny);
 
+    // first derivatives with the (smaller) first-order step: the second-order step is too coarse for them
+    J = dr_numerical<1>(f, x_nc).second;
+
     Eigen::Index I0 = 0;
     utils::static_for<NumArgs>([&](auto i0) {
       auto & w0                   = std::get<i0>(x_nc);
@@ -102,8 +105,6 @@ auto dr_numerical(auto && f, auto && x)
           w0                            = w0_orig;
 
           const Eigen::Matrix<Scalar, Ny, 1> d1 = rminus(F10, fval);
-
-          J.col(I0 + k0) = d1 / eps0;
 
           for (auto k1 = 0; k1 < nx_i1; ++k1) {
             Scalar eps1 = sqrteps;
